@@ -184,6 +184,19 @@ example :
   exact ⟨C12_nested_list_codecOK sszExFixed2_ok 3 _ _,
     (C12_nested_list_codecOK sszExFixed2_ok 3 _ _).dec_enc inner⟩
 
+/-- the shape of the correspondence's `nest2` kind, `List<List<u8, U8>, U4>`, over the variable-size
+example codec: a concrete two-item value decodes back from its offset-table encoding, and a list of
+such lists (three levels of nesting in all) round-trips through the outer offset table. -/
+example :
+    let E := sszExVar
+    let K := nestedListElem E 4 (fun _ => ()) (fun _ => ())
+    let v : NestedSeq E 4 := ⟨[⟨[7], by decide⟩, ⟨[8, 9, 10], by decide⟩], by decide⟩
+    let w : NestedSeq E 4 := ⟨[], by decide⟩
+    K.dec (K.enc v) = some v ∧ sszDecodeItems K 2 (sszEncode K [v, w]) = some [v, w] := by
+  intro E K v w
+  refine ⟨(C12_nested_list_codecOK sszExVar_ok 4 _ _).dec_enc v, ?_⟩
+  exact C12_nested_list_roundtrip sszExVar_ok 4 2 _ _ [v, w] (by decide) (by decide)
+
 example : CodecOK (nestedVectorElem sszExFixed2 4 2 (fun _ => ()) (fun _ => ())) :=
   C12_nested_vector_codecOK sszExFixed2_ok rfl 4 (by decide) _ _
 
